@@ -102,7 +102,11 @@ def features_of(net: list[dict], ev: dict, clause: str) -> dict:
         if bad:
             culprits.add("hard" if hard[m] else "soft")
     culprit = "both" if len(culprits) == 2 else (culprits.pop() if culprits else "none")
-    return {"clause": clause, "hard_touched": hard_touched, "culprit": culprit, "modules": min(len(net), 2)}
+    # a rectangle that is NOT enabled has grown: it was the partner of a fusion although turn_off_rects (or an earlier
+    # fusion) had already disabled it, so what was fused into it is lost
+    lost = any(i + 1 not in en[m] and after[m][i] != cfg[m][i] for m in range(len(net)) for i in range(len(cfg[m])))
+    return {"clause": clause, "hard_touched": hard_touched, "culprit": culprit, "disabled_partner_grew": lost,
+            "modules": min(len(net), 2)}
 
 
 def decide(ctx: Ctx, cases: list[dict], source: str) -> int:
@@ -171,7 +175,8 @@ def run(ctx: Ctx) -> int:
         return ctx.finish("model_checking", "replay of one recorded configuration")
     tlc.model_check(ctx, SPEC, f"{SPEC}_mc_{tier}", vacuity_ignore=("PEmit", "PerturbAny", "Wild", "EmitNet"))
     # what the loops do NOT guarantee, and what the code does to hard modules today: TLC must exhibit both
-    for cfg, inv in ((f"{SPEC}_mc_fails", "InvNoOverlap"), (f"{SPEC}_mc_fails2", "InvStillAttached"), (f"{SPEC}_mc_coded", "InvHardKept")):
+    for cfg, inv in ((f"{SPEC}_mc_fails", "InvNoOverlap"), (f"{SPEC}_mc_fails2", "InvStillAttached"), (f"{SPEC}_mc_fails3", "InvCovered"),
+                     (f"{SPEC}_mc_coded", "InvHardKept")):
         res = tlc.run_tlc(ctx, SPEC, cfg, expect_ok=False, tag="mc-must-fail")
         if res["ok"] or f"{inv} is violated" not in res["stdout"]:
             raise MachineryError(f"{cfg}: expected a counterexample to {inv}")
